@@ -43,6 +43,12 @@ def bodies(thorough):
             b = bytearray(base)
             b[1:3] = b"\r\n"
             pats["crlf"] = bytes(b)
+        if n in (7, 1025):
+            # a bare CR is not a line end for a binary file object
+            b = bytearray(base)
+            b[2] = 13
+            b[5] = 10
+            pats["bare-cr"] = bytes(b)
         for k, v in pats.items():
             out.append(("%d/%s" % (n, k), v))
     return out
@@ -227,7 +233,17 @@ def interleaved_bodies():
                     wire = b"POST /e HTTP/1.1\r\nHost: h\r\nTransfer-Encoding: chunked\r\n\r\n" + chunked(body, 400)
                 cutp = len(wire) - len(body) // 2
                 ev[name] = [(name, wire[:cutp]), (name, wire[cutp:])]
-            for order in merges(ev["A"], ev["B"]):
+            orders = list(merges(ev["A"], ev["B"]))
+            if framing == "chunked":
+                # also: each connection's stream cut in the middle of a chunk-size line (the reader waits inside the size line)
+                ev2 = {}
+                for name, body in bodies.items():
+                    wire = b"POST /e HTTP/1.1\r\nHost: h\r\nTransfer-Encoding: chunked\r\n\r\n" + chunked(body, 400)
+                    h = wire.index(b"\r\n\r\n") + 4
+                    second_size = wire.index(b"\r\n190\r\n", h) + 3 if b"\r\n190\r\n" in wire[h:] else h + 1
+                    ev2[name] = [(name, wire[:h + 1]), (name, wire[h + 1:second_size]), (name, wire[second_size:])]
+                orders += list(merges(ev2["A"], ev2["B"]))
+            for order in orders:
                 b = bench.Bench(kind, kw, EchoApp())
                 il = bench.Interleaver(b)
                 try:
@@ -335,18 +351,25 @@ def worker_level_next_request():
     viols = []
     n = 0
     for kind, kw in (("async", {"keepalive": 2}), ("gthread", {"keepalive": 2, "threads": 1, "worker_connections": 4})):
-        for blen in (10, 3000, 20000):
+        for blen in (10, 3000, 20000, 2200000):
             body = (b"0123456789" * (blen // 10 + 1))[:blen - 17] + b"GET /evil HTTP/1." if blen > 20 else b"0123456789"
             body = body[:blen]
-            for framing in ("cl", "chunked"):
+            for framing in ("cl", "chunked", "cl-GET", "chunked-GET", "cl-HEAD"):
+                method = b"POST"
+                if "-" in framing:
+                    # a body is a body whatever the method
+                    framing, m_ = framing.split("-")
+                    method = m_.encode()
+                    if blen > 3000:
+                        continue
                 if framing == "cl":
-                    wire = b"POST /first HTTP/1.1\r\nHost: h\r\nContent-Length: %d\r\n\r\n" % len(body) + body
+                    wire = method + b" /first HTTP/1.1\r\nHost: h\r\nContent-Length: %d\r\n\r\n" % len(body) + body
                 else:
-                    wire = b"POST /first HTTP/1.1\r\nHost: h\r\nTransfer-Encoding: chunked\r\n\r\n" + chunked(body, 1500, trailer=b"T: 1\r\n")
+                    wire = method + b" /first HTTP/1.1\r\nHost: h\r\nTransfer-Encoding: chunked\r\n\r\n" + chunked(body, 1500 if blen < 100000 else 65536, trailer=b"T: 1\r\n")
                 head_len = wire.index(b"\r\n\r\n") + 4
                 nxt = b"GET /second HTTP/1.1\r\nHost: h\r\nConnection: close\r\n\r\n"
-                for take in (None, 0, 5, blen, blen + 100):
-                    for late in (None, head_len, head_len + 4, head_len + min(blen, 9000) // 2):
+                for take in ((None, 0, 5, blen, blen + 100) if blen < 100000 else (None, 5)):
+                    for late in ((None, head_len, head_len + 4, head_len + min(blen, 9000) // 2) if blen < 100000 else (None,)):
                         app = PartialApp()
                         app.take = take
                         b = bench.Bench(kind, kw, app)
@@ -378,7 +401,7 @@ def worker_level_next_request():
                         if bad:
                             viols.append(violation("input-api:next-request-through-worker:%s" % framing,
                                                    "worker=%s framing=%s body=%d bytes, application read %r, rest of the stream sent %s: %s" % (
-                                                       kind, framing, blen, take, "at once" if late is None else "after %d bytes" % late, bad),
+                                                       kind, method.decode() + "/" + framing, blen, take, "at once" if late is None else "after %d bytes" % late, bad),
                                                    {"worker_level": True}))
                             break
                     if viols:
